@@ -84,6 +84,15 @@ def exp_term(ctx, x, depth=0):
     return t
 
 
+def exp_hom(ctx, a, b):
+    """instance of the homomorphism axiom EXP(a) * EXP(b) == EXP(a + b); returns the term EXP(simplify(a + b))"""
+    a, b = to_real(a), to_real(b)
+    ta, tb = exp_term(ctx, a), exp_term(ctx, b)
+    tc = exp_term(ctx, z3.simplify(a + b))
+    ctx.assume(ta * tb == tc)
+    return tc
+
+
 def log_term(ctx, y):
     """LOG(y) for y > 0 (caller established the domain), axiom EXP(LOG(y)) == y."""
     y = z3.simplify(to_real(y))
